@@ -1263,11 +1263,16 @@ class Exec:
         if g.ifs: return self.filtered_comprehension(n, g)
         c = self.frame.get('contract')
         if c is not None and not self.spec and not self.nofork and not self.frame.get('inlined'):
-            k = self.call_counts.get('comp', 0); lc = c.loops.get('comp#%d' % k)
+            # comprehensions are numbered statically, in source order within the function (list / generator comprehensions with one generator)
+            fn_ = self.frame.get('func')
+            if fn_ is not None:
+                allc = sorted([x for x in ast.walk(fn_) if isinstance(x, (ast.ListComp, ast.GeneratorExp))], key=lambda x: (x.lineno, x.col_offset))
+                k = [i_ for i_, x in enumerate(allc) if x is n]
+                k = k[0] if k else -1
+            else: k = -1
+            lc = c.loops.get('comp#%d' % k)
             if lc is not None:
-                self.call_counts['comp'] = k + 1
                 return self.comprehension_loop(n, g, lc, '%s/comp%d' % (self.vf.cur.oname, k))
-            self.call_counts['comp'] = k + 1
         it = self.iter_of(self.eval(g.iter))
         saved_env = self.st.env
         ex = self
@@ -1791,7 +1796,13 @@ class Exec:
         if k == 0:
             rty = c.get('returns', 'none')
             if c.get('returns_seq'): rty = c['returns_seq'][min(ordinal, len(c['returns_seq']) - 1)]
-            res = havoc(self.w.ty(rty), 'ret_' + f.key.replace('.', '_'), facts)
+            if c.get('returns_expr'):
+                # the result IS the value of a spec expression over the arguments (an uninterpreted function of them): no fresh value + equality
+                saved_env_ = self.st.env; self.st.env = dict(env)
+                try: res = self.co(self.val(self.eval_spec_val(c['returns_expr'])), self.w.ty(rty))
+                finally: self.st.env = saved_env_
+            else:
+                res = havoc(self.w.ty(rty), 'ret_' + f.key.replace('.', '_'), facts)
             for fct in facts: self.assume(fct)
             env2 = dict(env); env2['result'] = res
             ens = c.get('ensures', [])
